@@ -470,6 +470,23 @@ def standard_check(prop, tier, seed, mod):
             proof_ok = False
             theorem_fail = "unexpected axioms: " + ", ".join(extra)
             errtxt = theorem_fail
+    coqchk_note = None
+    if proof_ok and tier == "thorough" and not os.environ.get("VERIF_NO_COQCHK"):
+        with Lock("coqchk"):
+            rc, o = sh("coqchk -silent -o -Q theories Osmo Osmo.Properties.%s" % prop, cwd=COQ, timeout=3000)
+        m = re.search(r"\* Axioms:(.*?)\* Constants/Inductives relying on type-in-type:(.*?)\* Constants/Inductives relying on unsafe \(co\)fixpoints:(.*?)\* Inductives whose positivity is assumed:(.*)", o, flags=re.S)
+        if rc != 0 or not m:
+            proof_ok = False
+            theorem_fail = "coqchk failed on Properties/%s.vo" % prop
+            errtxt = o[-1500:]
+        else:
+            ax = " ".join(m.group(1).split())
+            bad = [" ".join(g.split()) for g in (m.group(2), m.group(3), m.group(4))]
+            coqchk_note = "coqchk -o: axioms of all loaded libraries: %s; type-in-type: %s; unsafe fixpoints: %s; assumed positivity: %s" % (ax, bad[0], bad[1], bad[2])
+            if any(b != "<none>" for b in bad):
+                proof_ok = False
+                theorem_fail = "coqchk reports disabled kernel checks: " + coqchk_note
+                errtxt = theorem_fail
     # model usable even if a proof broke?
     model_ok = True
     if not ok:
@@ -520,6 +537,8 @@ def standard_check(prop, tier, seed, mod):
     wall = time.time() - t0
     tb = list(KERNEL_TB)
     tb.append("axioms reported by Print Assumptions for Properties/%s.v: %s" % (prop, ", ".join(axioms) if axioms else "none (all %d theorems closed under the global context)" % closed))
+    if coqchk_note:
+        tb.append(coqchk_note)
     tb += getattr(mod, "TRUSTED", [])
     cov = {
         "obligations": nobl, "discharged": nobl if proof_ok else 0,
